@@ -6,7 +6,7 @@ from hypothesis.stateful import RuleBasedStateMachine, rule
 
 import mido
 import mido.ports as ports_mod
-from lib.doubles import CLOSE, Dev, FakeSleep, SleepBudget, note, patched_sleep
+from lib.doubles import CLOSE, Dev, DirectDev, FakeSleep, SleepBudget, note, patched_sleep
 from lib.harness import Violation, exc_sig, fail
 
 PID = 'C11'
@@ -98,10 +98,12 @@ class World:
     def __init__(self, kind, autoreset):
         self.kind = kind
         self.fake = FakeSleep(budget=40)
-        if kind == 'device':
-            self.devs = [Dev('d', autoreset=autoreset)]
+        if kind in ('device', 'device-direct'):
+            # (a device whose _receive() returns the message directly behaves, seen from outside, like one that queues it)
+            self.devs = [(Dev if kind == 'device' else DirectDev)('d', autoreset=autoreset)]
             self.mdevs = [MDev(autoreset)]
             self.port = self.devs[0]
+            self.kind = kind = 'device'
         elif kind == 'ioport':
             self.devs = [Dev('in'), Dev('out', autoreset=True)]
             self.mdevs = [MDev(False), MDev(True)]
@@ -770,7 +772,7 @@ def make_machine(kind, autoreset):
     return PortMachine
 
 
-KINDS = [('device', False), ('device', True), ('echo', False), ('ioport', False), ('multi', False), ('multi-gen', False),
+KINDS = [('device', False), ('device', True), ('device-direct', False), ('device-direct', True), ('echo', False), ('ioport', False), ('multi', False), ('multi-gen', False),
          ('multi-yield', False)]
 
 
@@ -805,6 +807,7 @@ def enum_selfclose(rec, shard):
                     ops += [['close'], ['close'], ['send', 1], ['poll'], ['iterate']]
                     rec.check({'kind': 'device', 'autoreset': ar, 'ops': ops}, distinct=False,
                               sample=(n == 2 and pos == 1 and pre == 0 and drain == 'iterate'))
+                    rec.check({'kind': 'device-direct', 'autoreset': ar, 'ops': ops}, distinct=False, sample=False)
 
 
 def enum_failing_reset(rec, shard):
